@@ -37,6 +37,10 @@ CHECKS = {
  'C05': dict(level='exploration', ref='3/C05', technique='differential + self-consistency execution monitor: the same initializer text for a static and an automatic object (stack dirtied first), member-wise dumps and raw static bytes vs gcc == clang',
              text='Random object types get random valid initializer spellings drawn from the 6.7.9 grammar (brace elision, nested/out-of-order designators, ranges, short lists, trailing commas, scalar re-initialisation, strings of every prefix incl. braced and concatenated, unions by first member and by designator, unknown bounds, flexible array members, address constants with offsets). Every named leaf of both storage classes is dumped; zero fill is only credible because the stack is dirtied before the automatic instance is created.',
              note='gcc == clang trusted; generator avoids re-initialising an aggregate subobject with braces (open finding pinned by test/initializer.c, probed separately) and pointers inside unions (absolute addresses)'),
+
+ 'C06': dict(level='exploration', ref='3/C06', technique='2x2 caller/callee matrix (chibicc/gcc, clang as tie-breaker) with unique-id argument leaves and logged receive/return events; stack dirtying; call-site alignment probes (hook), entry alignment checks in gcc callees, callee-saved canaries (asm trampoline), dirty-upper-bits trampolines',
+             text='Every signature is exercised in gcc->gcc, clang->clang, chibicc->chibicc, chibicc->gcc and gcc->chibicc; the callee logs every scalar leaf it received, the caller what came back, so a mismatch names the parameter. The grid argument class (23) x GP registers used (0..7) x SSE registers used (0..9) is walked completely with cycling return classes; 3 000 random signatures (by-value structs/unions with bit-fields, long double, up to 12 parameters) and variadic functions are added. Absolute monitors: 16-byte alignment at every emitted call and at every gcc callee entry, rbx/rbp/r12-r15/rsp/DF canaries, narrow values with garbage in the unspecified upper bits.',
+             note='gcc == clang trusted as the psABI; features of open findings (struct{long double} return, struct va_arg, x87 live across calls, padding-only eightbyte) only in dedicated probes; struct shapes within a class are sampled'),
 }
 REASON_WIP = 'check not built yet in this session (planned, see DESIGN.md section 3); will be claimed once its monitor is silent on the unchanged tree'
 
